@@ -33,7 +33,8 @@ PUNCT_R = PUNCT + [". "]
 PUNCT_PW_R = list(",;\"'[]{}<>|~?`")
 SPACE = [" ", " ", "\t"]
 PW_SEPS = [": ", ":", "=", " = ", "= \"", "=\"", " ", " --md5 ", ": \"", "\t", " : "]
-AKEY = "AKYHV7"         # the allow-list key of the filterable specs (registered once per process, see filter_specs)
+AKEYS = {1: "AKYHV7", 2: "AKYJW3", 3: "AKYKX5"}     # the allow-list keys of the filterable specs (see filter_specs)
+AKEY = AKEYS[1]
 LINE_MARK = re.compile(r"ZL(\d+)Z")
 GAP_MARK = re.compile(r" ZQ(\d+)Z ")
 
@@ -57,8 +58,11 @@ class Conc(object):
         self.short = word(rng, HOST1, 2, 2) + word(rng, HOSTN, 1, 5)
         # the system's FQDN has 2, 3 or 4 labels (host.lan, host.site.corp, host.a.b.org)
         nlab = rng.randint(1, 3)
-        labels = [word(rng, HOST1, 2, 2) + word(rng, HOSTN, 0, 4) for _ in range(nlab - 1)] + \
-                 [pick(rng, ["jv", "wk", "qz", "vkw", "jklan", "qvdomain", "wzk8"])]
+        while True:
+            labels = [word(rng, HOST1, 2, 2) + word(rng, HOSTN, 0, 4) for _ in range(nlab - 1)] + \
+                     [pick(rng, ["jv", "wk", "qz", "vkw", "jklan", "qvdomain", "wzk8"])]
+            if not any(self.short in lab or lab in self.short for lab in labels):
+                break           # (the short name is replaced wherever it occurs: keep it out of the domain's labels)
         if fam == "collide":
             labels = ["example", "com"]
         self.domain = ".".join(labels)
@@ -109,6 +113,19 @@ class Conc(object):
             from insights.cleaner.ip import IPv4
             scratch = IPv4()
             self.ip[1] = scratch.parse_line("1.1.1.1")
+        # IPv6 addresses: full eight-group notation, one letter case per trace
+        self.ip6 = {}
+        up6 = rng.random() < 0.3
+        for i in range(1, nid.get("ip6", 0) + 1):
+            while True:
+                a = ":".join(pick(rng, [word(rng, "0123456789abcdef", 1, 4), word(rng, "0123456789abcdef", 4, 4),
+                                        "0", "fe80", word(rng, "abcdef", 2, 4)]) for _ in range(8))
+                if a not in self.ip6.values() and len(set(a.split(":"))) > 2:
+                    break
+            self.ip6[i] = a.upper() if up6 else a
+        if fam == "collide" and nid.get("ip6", 0) >= 2:
+            from insights.cleaner.ip import IPv6
+            self.ip6[1] = IPv6().parse_line(self.ip6[2])
         # MAC addresses: one notation per trace
         self.mac_sep = pick(rng, [":", ":", "-"])
         self.mac_up = rng.random() < 0.4
@@ -135,6 +152,14 @@ class Conc(object):
             self.kw[i] = k
         if fam == "kwdom":
             self.kw[1] = labels[0]
+        if fam == "kwhost":
+            # the keyword is a part of the host label of dom 1 (vault / vaultsrv.corp.test)
+            while True:
+                k = word(rng, HOST1, 2, 2) + word(rng, HOSTN[:15], 2, 4)
+                if not any(k in u for u in list(used) + [self.domain]):
+                    break
+            self.kw[1] = k
+            self.dom[1] = pick(rng, ["", word(rng, HOST1, 2, 2)]) + k + pick(rng, ["", "srv", "01", "-a"]) + "." + dom
         self.pat = {}       # id -> (configured pattern, text that contains / matches it)
         cores = []
         for i in range(1, nid["pat"] + 1):
@@ -190,6 +215,8 @@ class Conc(object):
             self.table.setdefault(v, ("mac", i))
         for i, v in self.kw.items():
             self.table.setdefault(v, ("kw", i))
+        for i, v in self.ip6.items():
+            self.table.setdefault(v, ("ip6", i))
         self.table[self.fqdn] = ("fqdn", 0)
 
     def _ip(self):
@@ -248,8 +275,10 @@ class Conc(object):
         if k == "pat":
             return self.pat[i][1], self.pat[i][1]
         if k == "akey":
-            tx = pick(rng, ["", "", "x=", "G"]) + AKEY + pick(rng, ["", "", ":", "7"])
+            tx = pick(rng, ["", "", "x=", "G"]) + AKEYS[i] + pick(rng, ["", "", ":", "7"])
             return tx, tx
+        if k == "ip6":
+            return self.ip6[i], self.ip6[i]
         if k == "pw":
             if self.cf["fam"] == "pwip":
                 secret = sens = self.ip[1]
@@ -271,6 +300,10 @@ class Conc(object):
         if cls == "space":
             return " " if self.width else pick(rng, SPACE)
         if cls == "punct":
+            if side == "l" and k == "ip6":
+                # the look-behind of the IPv6 pattern contains the character range \\-a, i.e. \\ ] ^ _ ` a: an address
+                # after one of these is recognised from its second character on (family v6lb, a recorded finding)
+                return pick(rng, list("]^`")) if self.cf["fam"] == "v6lb" else pick(rng, [c for c in PUNCT if c not in "]^`"])
             if side == "l":
                 return pick(rng, PUNCT)
             return pick(rng, PUNCT_PW_R if k == "pw" else PUNCT_R)
@@ -407,7 +440,8 @@ class Interner(object):
 
 
 def make_config(cf, tmp):
-    conf = InsightsConfig(obfuscate=cf["obf"], obfuscate_hostname=cf["host"], obfuscate_mac=cf["mac"])
+    conf = InsightsConfig(obfuscate=cf["obf"], obfuscate_hostname=cf["host"], obfuscate_mac=cf["mac"],
+                          obfuscate_ipv6=bool(cf.get("v6")))
     conf.rhsm_facts_file = os.path.join(tmp, "facts-%d.json" % os.getpid())
     return conf
 
@@ -425,7 +459,7 @@ def make_cleaner(cf, conc, tmp):
 def issued(cleaner, cf, conc):
     subs = set()
     maps = {}
-    for name in ("ip", "hostname", "mac", "keyword"):
+    for name in ("ip", "ipv6", "hostname", "mac", "keyword"):
         o = cleaner.obfuscate.get(name)
         if o:
             maps[name] = o.mapping()
@@ -435,7 +469,7 @@ def issued(cleaner, cf, conc):
 
 
 def universe(case):
-    nid = dict(ip=1, dom=1, mac=1, kw=1, pat=1)
+    nid = dict(ip=1, dom=1, mac=1, kw=1, pat=1, ip6=0)
     for s in case["content"]:
         for ln in s["lines"]:
             for t in ln:
@@ -447,6 +481,8 @@ def universe(case):
     if case["cf"]["fam"] in ("collide", "suffix", "prefix"):
         for k in ("ip", "dom", "mac"):
             nid[k] = max(nid[k], 2)
+        if nid["ip6"]:
+            nid["ip6"] = max(nid["ip6"], 2)
     return nid
 
 
@@ -467,23 +503,25 @@ def plain_spec(nored, noobf):
     return _PS[key]
 
 
-def filter_specs():
-    """Two generated filterable specs with real registered filters: AKEY with max_match 1 resp. 2."""
-    if not _VS:
+def allow_dict(spec):
+    """the allow list of a filterable spec: {key 1: n, ..., key nak: n} in that order"""
+    return dict((AKEYS[i], spec["allow"]) for i in range(1, int(spec.get("nak") or 1) + 1))
+
+
+def filter_specs(spec):
+    """A generated filterable spec with real registered filters: the keys of the case, each with max_match n."""
+    key = (spec["allow"], int(spec.get("nak") or 1))
+    if key not in _VS:
         from insights.core import filters
         from insights.core.spec_factory import RegistryPoint, SpecSet, simple_file
-
-        class VerifSpecs(SpecSet):
-            f1 = RegistryPoint(filterable=True)
-            f2 = RegistryPoint(filterable=True)
-
-        class VerifImpl(VerifSpecs):
-            f1 = simple_file("verif_f1")
-            f2 = simple_file("verif_f2")
-        filters.add_filter(VerifSpecs.f1, AKEY, 1)
-        filters.add_filter(VerifSpecs.f2, AKEY, 2)
-        _VS.update({1: VerifImpl.f1, 2: VerifImpl.f2, "filters": filters})
-    return _VS
+        name = "verif_f%d_%d" % key
+        specs = type("VerifFSpecs%d_%d" % key, (SpecSet,), {"f": RegistryPoint(filterable=True)})
+        impl = type("VerifFImpl%d_%d" % key, (specs,), {"f": simple_file(name)})
+        for i in range(1, key[1] + 1):
+            filters.add_filter(specs.f, AKEYS[i], key[0])
+        _VS[key] = (impl.f, name)
+        _VS["filters"] = filters
+    return _VS[key] + (_VS["filters"],)
 
 
 def run_spec(cleaner, spec, lines, path, tmp, tag, allow_obj=None):
@@ -494,18 +532,16 @@ def run_spec(cleaner, spec, lines, path, tmp, tag, allow_obj=None):
         path = "provider"
     if path == "filterprovider":
         # the collection path of a filterable spec: grep pre-filter, then the cleaner with the registered filters
-        vs = filter_specs()
-        ds = vs[spec["allow"]]
+        ds, fname, filters = filter_specs(spec)
         root = os.path.join(tmp, "root-%s" % tag)
         os.makedirs(root)
         dst = os.path.join(root, "archive", "data", "spec")
-        with open(os.path.join(root, "verif_f%d" % spec["allow"]), "w") as f:
+        with open(os.path.join(root, fname), "w") as f:
             f.write("".join(t + "\n" for t in texts))
         raised = False
         try:
             try:
-                prov = TextFileProvider("verif_f%d" % spec["allow"], root=root, ds=ds, ctx=HostContext(root=root),
-                                        cleaner=cleaner)
+                prov = TextFileProvider(fname, root=root, ds=ds, ctx=HostContext(root=root), cleaner=cleaner)
                 prov.write(dst)
             except (ContentException, NoFilterException):
                 raised = True
@@ -518,7 +554,7 @@ def run_spec(cleaner, spec, lines, path, tmp, tag, allow_obj=None):
             shutil.rmtree(root, True)
         if allow_obj is not None:
             allow_obj.clear()
-            allow_obj.update(vs["filters"].get_filters(ds, True))
+            allow_obj.update(filters.get_filters(ds, True))
         return out, stored, raised
     width = bool(spec.get("width"))
     # the only spec cleaned in fixed-width mode is the one whose path ends in netstat_-neopa (spec_factory.py:109)
@@ -624,11 +660,11 @@ def classify(line, outline, subs, intern):
 
 def abstract_maps(maps, conc, intern, alltext):
     res = []
-    gname = {"ip": "ip", "hostname": "host", "mac": "mac", "keyword": "kw"}
+    gname = {"ip": "ip", "ipv6": "ip6", "hostname": "host", "mac": "mac", "keyword": "kw"}
     for name, entries in sorted(maps.items()):
         for e in entries:
             k, i = conc.table.get(e["original"], ("unknown", 0))
-            if k != "unknown" and gname[name] != {"ip": "ip", "dom": "host", "fqdn": "host", "mac": "mac", "kw": "kw"}[k]:
+            if k != "unknown" and gname[name] != {"ip": "ip", "ip6": "ip6", "dom": "host", "fqdn": "host", "mac": "mac", "kw": "kw"}[k]:
                 k, i = "unknown", 0
             res.append({"g": gname[name], "k": k, "id": i, "v": intern(e["obfuscated"]),
                         "inc": e["original"] in alltext})
@@ -703,7 +739,7 @@ def do_case(case, j, seed, path, tmp, facts, stats, prop="C08"):
             fx = json.load(f)
         os.unlink(cleaner.rhsm_facts_file)
         fmaps = {}
-        for name, key in (("ip", "obfuscated_ipv4"), ("hostname", "obfuscated_hostname"),
+        for name, key in (("ip", "obfuscated_ipv4"), ("ipv6", "obfuscated_ipv6"), ("hostname", "obfuscated_hostname"),
                           ("mac", "obfuscated_mac"), ("keyword", "obfuscated_keyword")):
             fmaps[name] = json.loads(fx["insights_client." + key])
         events.append({"ev": "report", "via": "facts", "maps": abstract_maps(fmaps, conc, intern, alltext)})
@@ -721,7 +757,7 @@ def do_run_case(case, seed, tmp, stats, repeat=True):
     conc = Conc(rng, cf, universe(case))
     filtered = any(sp["sp"].get("allow") for sp in case["content"])
     paths = case.get("paths", ["content", "provider"])
-    allow_objs = dict(((p, si), {AKEY: sp["sp"]["allow"]}) for p in paths for si, sp in enumerate(case["content"])
+    allow_objs = dict(((p, si), allow_dict(sp["sp"])) for p in paths for si, sp in enumerate(case["content"])
                       if sp["sp"].get("allow"))
     reps = []
     for ri in range((3 if filtered else 2) if repeat else 1):
@@ -761,7 +797,7 @@ def do_run_case(case, seed, tmp, stats, repeat=True):
                         uniq.append(o)
                 res["specs"].append({"path": path, "si": si + 1, "orders": uniq, "out": provenance(out, lines),
                                      "texts": out, "stored": stored, "raised": raised,
-                                     "mutated": aobj is not None and aobj != {AKEY: spec["sp"]["allow"]},
+                                     "mutated": aobj is not None and aobj != allow_dict(spec["sp"]),
                                      "input": [l.text for l in lines]})
         reps.append(res)
     return {"reps": reps}
